@@ -275,3 +275,62 @@ func NamedScalars() []reflect.Type {
 		reflect.TypeOf(NDur(0)),
 	}
 }
+
+// ---- texts in the grammar of package parse (slices, sets, maps), ASCII ----
+
+var identToks = []string{"a", "b", "ab", "x1", "k", "v", "foo", "bar", "z9", "q", "a.b", "p/q", "h:1", "x+y", "m-n", "$v", "50%", "a b", "A", "0"}
+var quotedToks = []string{`"x,y"`, `"q\"uote"`, `"sp ace"`, `""`, "`raw,text`", "`b\\s`", `"tab\there"`, `"\x41é"`, `"k:v"`}
+var badToks = []string{`"unterminated`, `"bad\qescape"`, `'c'`, "`open", `"a" "b"`, `\`, `a\b`}
+
+// GenStrElem draws one string element in source form; ok=false: malformed.
+func GenStrElem(r *coqfmt.Rng, allowBad bool) (string, bool) {
+	switch x := r.Intn(20); {
+	case x < 12:
+		return coqfmt.Pick(r, identToks), true
+	case x < 18:
+		return coqfmt.Pick(r, quotedToks), true
+	default:
+		if allowBad {
+			return coqfmt.Pick(r, badToks), false
+		}
+		return coqfmt.Pick(r, identToks), true
+	}
+}
+
+// GenListText joins 0-4 elements with commas (blanks around some of them, stray commas rarely).
+func GenListText(r *coqfmt.Rng, elem func() string) string {
+	n := r.Intn(5)
+	var sb strings.Builder
+	for i := 0; i < n; i++ {
+		if i > 0 {
+			sb.WriteString(coqfmt.Pick(r, []string{",", ",", ",", ", ", " ,", ",,"}))
+		}
+		sb.WriteString(elem())
+	}
+	if r.Chance(1, 12) {
+		return "," + sb.String()
+	}
+	if r.Chance(1, 12) {
+		return sb.String() + ","
+	}
+	return sb.String()
+}
+
+// GenMapText draws "k:v,k2:v2" texts, incl. bare keys, empty values, repeated keys and (rarely) stray colons.
+func GenMapText(r *coqfmt.Rng, key, val func() string, allowBad bool) string {
+	n := r.Intn(5)
+	parts := make([]string, n)
+	for i := range parts {
+		switch x := r.Intn(12); {
+		case x == 0:
+			parts[i] = key()
+		case x == 1:
+			parts[i] = key() + ":"
+		case x == 2 && allowBad:
+			parts[i] = coqfmt.Pick(r, []string{":" + val(), key() + ":" + val() + ":" + val(), key() + "::" + val()})
+		default:
+			parts[i] = key() + coqfmt.Pick(r, []string{":", ":", ": ", " :"}) + val()
+		}
+	}
+	return strings.Join(parts, coqfmt.Pick(r, []string{",", ",", ", "}))
+}
